@@ -655,8 +655,21 @@ func (rn *runner) writeCase(c wcase, tag string) {
 		for _, e := range cc.Entries {
 			names = append(names, e.Name)
 		}
+		var news []string
+		if r2, ok := runWrite(rn.f.Work, cc); ok {
+			for _, k := range sortedKeys(r2.after) {
+				if _, old := r2.before[k]; !old {
+					if r2.after[k].dir {
+						news = append(news, "dir "+k)
+					} else {
+						news = append(news, fmt.Sprintf("file %s %q", k, r2.after[k].data))
+					}
+				}
+			}
+			in["existing_before"] = strings.Join(sortedKeys(r2.before), " ")
+		}
 		res.Violate(common.Violation{Kind: "impl-violation", Oracle: o, Input: in,
-			Impl: r.res, Key: fmt.Sprintf("%s:scenario%d:%q", o, c.Scenario, names),
+			Impl: fmt.Sprintf("result=%s; new objects relative to the sandbox root: %q", r.res, news), Key: fmt.Sprintf("%s:scenario%d:%q", o, c.Scenario, names),
 			Detail: fmt.Sprintf("txtar.Write into %s (scenario %d: see setupScenario; dir form %d): property C15 evaluated directly on the implementation", targetRel, c.Scenario, c.DirForm)})
 	}
 	if want != got {
